@@ -13,7 +13,8 @@ RULE = ("every run_experiment_group definition with 0..3 instances x chain_exper
         "documentation prescribes; both forms are loaded through the real TaskIndex and the task graphs compared (identifiers, types, "
         "ordered deps, run, args, options, flags; accept/reject agreement), and for <=2 instances both forms are executed under the "
         "virtual kernel and spawn traces, Conductor output and resulting cond-out trees compared. programs = group definitions; "
-        "distinct = distinct definition text")
+        "distinct = distinct definition text"
+        ' Two-file cases: a group depending on a group in another COND file with the same instance names.')
 ASSUMPTIONS = [
     "the expansion is the one shown in website/docs/task-types/run-experiment-group.md (deps of instance i = group deps + previous instance when chained)",
     "execution comparison uses the canonical schedule (the property does not quantify over schedules)",
@@ -97,6 +98,12 @@ def gen(tier):
         for chain in (False, True):
             yield {"tag": "twofiles", "insts": [("e%d" % i, [], {"t": i}, False) for i in range(k)], "chain": chain, "deps": ["//q:g"],
                    "run": True, "second_group": True}
+    # `experiments` is declared Iterable: generators / iterators / map objects must behave like the list
+    for k in (1, 2, 3):
+        for form in ("iter", "gen", "tuple"):
+            for chain in (False, True):
+                yield {"tag": "iterable-%s" % form, "insts": [("e%d" % i, ["x", i], {}, bool(i % 2)) for i in range(k)], "chain": chain,
+                       "deps": [":base"], "run": k <= 2, "form": form}
     for raw in ('["e0"]', '[("e0", [], {}, False)]', "None", "5", '[ExperimentInstance(name="e0"), None]'):
         yield {"tag": "malformed", "insts": None, "raw": raw, "chain": False, "deps": None, "run": False}
 
@@ -158,7 +165,21 @@ def run_form(files):
 
 
 def run_case(case, found, res):
-    if case.get("insts") is not None:
+    if case.get("insts") is not None and case.get("form"):
+        listsrc = group_src("g", "./exp.sh", case["insts"], case["chain"], case["deps"])
+        inner = listsrc[listsrc.index("experiments=[") + len("experiments="):]
+        depth, end = 0, 0
+        for i, ch in enumerate(inner):
+            depth += ch == "["
+            depth -= ch == "]"
+            if depth == 0:
+                end = i + 1
+                break
+        lit = inner[:end]
+        wrapped = {"iter": "iter(%s)" % lit, "gen": "(x for x in %s)" % lit, "tuple": "tuple(%s)" % lit}[case["form"]]
+        gsrc = listsrc.replace("experiments=" + lit, "experiments=" + wrapped, 1)
+        esrc = expand_src("g", "./exp.sh", case["insts"], bool(case["chain"]), case["deps"])
+    elif case.get("insts") is not None:
         gsrc = group_src("g", "./exp.sh", case["insts"], case["chain"], case["deps"])
         esrc = expand_src("g", "./exp.sh", case["insts"], bool(case["chain"]), case["deps"])
     else:
